@@ -28,7 +28,9 @@ ASSUMPTIONS = ["free mode (validators: []) so ids can be chosen; SQLite only; LM
 
 AUTH = [E.ADJ_HEX[3], E.ADJ_HEX[4]]
 KINDS = [0, 3, 10000, 19999, 30000, 30000, 30000, 39999, 1, 9999, 40000]
-DTAGS = [None, ["d"], ["d", ""], ["d", "a"], ["d", "ab"], ["d", "abc"], ["d", "é"], ["d", "a", "x"]]
+DTAGS = [None, ["d"], ["d", ""], ["d", "a"], ["d", "ab"], ["d", "abc"], ["d", "é"], ["d", "a", "x"],
+         # several d tags: only the first one counts (NIP-33's list of equivalent shapes), bare/empty first included
+         [["d"], ["d", "a"]], [["d", ""], ["d", "ab"]], [["d", "a"], ["d", "ab"]], [["d", "", "a"]], [["d", "ab"], ["d"]]]
 TSG = [E.T0 + 5, E.T0 + 10, E.T0 + 15, E.T0 + 20]
 
 
@@ -39,7 +41,7 @@ def mk(i, a, kind, d, ts, extra=False):
     elif extra:
         tags.append(["t", "x"])
     if d is not None:
-        tags.append(list(d))
+        tags.extend([list(t) for t in d] if isinstance(d[0], list) else [list(d)])
     return E.free(("%02x" % (i + 1)) * 32, AUTH[a], kind, ts, tags)
 
 
@@ -51,7 +53,9 @@ def st_history(draw, maxn):
         out.append(mk(i, draw(st.integers(0, 1)), draw(st.sampled_from(KINDS)), draw(st.sampled_from(DTAGS)),
                       draw(st.sampled_from(TSG)), draw(st.sampled_from([0, 0, 1, 1, 1, 2]))))
         if draw(st.integers(0, 9)) == 0 and out:
-            out.append(dict(draw(st.sampled_from(out))))  # duplicate submission
+            out.append(dict(draw(st.sampled_from([e for e in out if isinstance(e, dict)]))))  # duplicate submission
+        if draw(st.integers(0, 11)) == 0:
+            out.append(["reopen"])  # the relay is restarted on the same database (LMDB; ignored elsewhere)
     return out
 
 
@@ -113,6 +117,7 @@ def interesting(before, ev):
 async def run_burst(history):
     """LMDB: the whole history is submitted before the writer thread applies anything (a backlogged writer)"""
     viol = []
+    history = [e for e in history if isinstance(e, dict)]
     async with H.Rig("kv", validators=[]) as rig:
         half = len(history) // 2
         for ev in history[:half]:
@@ -164,8 +169,18 @@ async def run_history(backend, history):
     viol = []
     nt = False
     labels = ["backend:" + backend]
-    async with H.Rig(backend, validators=[]) as rig:
+    rig = H.Rig(backend, validators=[])
+    await rig.open()
+    try:
         for step, ev in enumerate(history):
+            if isinstance(ev, list):
+                if backend == "kv":
+                    path = rig.path
+                    await rig.close()
+                    rig = H.Rig("kv", validators=[], path=path)
+                    await rig.open()
+                    labels.append("reopen")
+                continue
             before = await rig.dump()
             nt = nt or interesting(before, ev)
             ok, reason = await rig.add(ev)
@@ -187,6 +202,12 @@ async def run_history(backend, history):
             check_step(backend, before, after, ev, ok, viol, step)
             if viol:
                 break
+    finally:
+        await rig.close()
+        if backend == "kv":
+            import lmdb
+
+            lmdb._reset(rig.path)
     return Result(viol, nt, labels)
 
 
